@@ -1036,6 +1036,62 @@ def run(ctx):
             break
         process(ctx, batch, sampled, first)
         first = False
+    io_adapters(ctx)
+
+
+def io_adapters(ctx):
+    """impl Read / impl Write for WebsocketStream: a handler that uses the std::io adapters instead of recv / send must see
+    the same message payloads in the same order, answer control frames the same way, and everything it writes must again
+    be well-formed frames carrying exactly the bytes written (text when they are UTF-8, else binary).  Differential on the
+    implementation (recv/send session vs io session on the same client bytes) plus the strict frame parser."""
+    rng = ctx.rng
+    n = 400 if ctx.tier == 'thorough' else 40 * ctx.scale
+    cases = []
+    for i in range(n):
+        frames, _closes = rand_script(rng, big_ok=(i % 10 == 0), maxframes=8, close_p=0.6)
+        if not script_ok(frames):
+            continue
+        segs = segments(rng, frames, rng.choice(['whole', 'frames', 'headers', 'random']))
+        plan = plan_of(rng, segs, True)
+        cases.append((frames, i % 2, plan))
+    l_recv = ['c11_run %d - fin %s' % (e, p) for _, e, p in cases]
+    l_io = ['c11_io %d %s' % (e, p) for _, e, p in cases]
+    ws = [1 + p.count(',p') * 3 for _, _, p in cases]
+    a = run_sharded(hv.IMPL_BIN, l_recv, ws)
+    b = run_sharded(hv.IMPL_BIN, l_io, ws)
+    ctx.evaluations += 2 * len(cases)
+    for (frames, echo, plan), x, y, line in zip(cases, a, b, l_io):
+        ctx.count('io-adapter sessions')
+        kx, ky = kv(x), kv(y)
+        case = {'kind': 'io', 'line': line[:3000], 'frames': describe(frames)}
+        if y in ('PANIC', 'DIED', 'TIMEOUT') or 'res' not in ky or 'res' not in kx:
+            ctx.report(case, y[:200], x[:200], cls='io-adapter', failing_input=y in ('PANIC', 'DIED', 'TIMEOUT'),
+                       what='session through the io adapters did not complete')
+            continue
+        # payloads delivered, in order (the io session cannot tell text from binary)
+        px = [r.split(':', 1)[1] for r in kx['res'].split(';') if r[:2] in ('T:', 't:', 'B:')]
+        py_ = [r.split(':', 1)[1] for r in ky['res'].split(';') if r.startswith('R:')]
+        if px != py_:
+            ctx.report(case, ky['res'][:300], kx['res'][:300], cls='io-adapter', failing_input=True,
+                       what='io::Read on the WebSocket stream delivers other payloads than recv()')
+            continue
+        fx, ex = parse_server_frames(bytes.fromhex(kx.get('out', '')))
+        fy, ey = parse_server_frames(bytes.fromhex(ky.get('out', '')))
+        if ey is not None:
+            ctx.report(case, 'server bytes: ' + ey, 'well-formed unmasked frames', cls='io-adapter', failing_input=True,
+                       what='what the server wrote through io::Write is not a sequence of well-formed frames: ' + ey)
+            continue
+        if ex is None:
+            # same frames on the wire, except that an echoed payload is typed by its content (Message::new)
+            # (io::Write::write_all of an empty buffer never calls write: an empty message is not echoed through the adapter)
+            norm = lambda fs, retype: [(fin, (1 if utf8_ok(pl) else 2) if (retype and op in (1, 2)) else op, pl) for fin, op, pl in fs
+                                       if not (op in (1, 2) and pl == b'')]
+            if norm(fx, True) != norm(fy, False):
+                ctx.report(case, repr(fy)[:300], repr(norm(fx, True))[:300], cls='io-adapter', failing_input=True,
+                           what='frames written through io::Write differ from those of the recv/send session')
+                continue
+        if len(px) >= 1:
+            ctx.mark_nontrivial(('io', line[:200]))
 
 
 def process(ctx, cases, sampled, first):
